@@ -415,7 +415,7 @@ def c19_bodiless(method, status):
 def c19_response_bytes(resp, method=b"GET"):
     """resp = (status, loc, body, framing, delay, cuts, close[, k100[, ctype]])     k100 = number of interim 100 Continue responses sent first;
        ctype 0 none | 1..3 a JSON Content-Type header
-       loc: None | (secure 0|1, port, target bytes: path, optionally ?query)
+       loc: None | (secure 0|1, port, target bytes: path, optionally ?query[, form]) — form: how the Location header is written, see below
        framing: 0 Content-Length | 1 chunked | 2 until-close | 3 Content-Length but truncated by close
        For a bodiless response (HEAD request, 1xx / 204 / 304) the head is the same (Content-Length = entity length, or
        Transfer-Encoding: chunked) but NO body byte is sent, as a correct server does.
@@ -427,8 +427,17 @@ def c19_response_bytes(resp, method=b"GET"):
     if ctype:       # the body is announced as JSON (whatever its bytes really are)
         lines.append("Content-Type: " + [None, "application/json", "application/json; charset=utf-8", "Application/JSON;charset=ISO-8859-1"][ctype])
     if loc is not None:
-        sec, port, path = loc
-        lines.append("Location: %s://%s:%d%s" % ("https" if sec else "http", HOST, port, path.decode("ascii")))
+        sec, port, path = loc[:3]
+        form = loc[3] if len(loc) > 3 else 0
+        # how the Location names its server: 0 absolute with port | 1 absolute WITHOUT port (the scheme's default port is meant: only written when the target
+        # sits on 80 / 443) | 2 scheme-relative //host[:port]/path (means http to this client; only written for plain-http targets)
+        default = port == (443 if sec else 80)
+        if form == 1 and default:
+            lines.append("Location: %s://%s%s" % ("https" if sec else "http", HOST, path.decode("ascii")))
+        elif form == 2 and not sec:
+            lines.append("Location: //%s%s%s" % (HOST, "" if default else ":%d" % port, path.decode("ascii")))
+        else:
+            lines.append("Location: %s://%s:%d%s" % ("https" if sec else "http", HOST, port, path.decode("ascii")))
     out = None
     if framing in (0, 4):      # 4: a complete length-delimited response; LATER, with the client idle, the server says 408 on its own and closes
         lines.append("Content-Length: %d" % len(body))
